@@ -30,7 +30,7 @@ Definition strip_port (host : str) (tls : bool) : str :=
 
 Definition normalize_host (host : str) (tls : bool) : str := lower (strip_port host tls).
 
-(* ---------- net.SplitHostPort / JoinHostPort on bracket-free strings ----------
+(* ---------- net.SplitHostPort / JoinHostPort on strings that do not START with '[' ----------
    result (host, port); ("","") where Go returns an error *)
 Definition ch_colon : N := 58.
 Definition has_colon (s : str) : bool := existsb (fun c => c =? ch_colon) s.
@@ -40,6 +40,8 @@ Definition split_host_port (s : str) : str * str :=
   | None => ([], [])                                  (* missing port *)
   | Some i => let host := firstn i s in
               if has_colon host then ([], [])         (* too many colons *)
+              else if existsb (fun c => (c =? 91) || (c =? 93)) s then ([], [])
+                                                      (* unexpected '[' / ']' in address *)
               else (host, skipn (S i) s)
   end.
 
@@ -60,19 +62,65 @@ Definition reverse_host_port (s : str) : str :=
    (the elements sorted are pairwise distinct in both uses, so the result does not
    depend on the sorting algorithm) *)
 Section Sort.
-  Context {A : Type} (key : A -> str).
+  Context {A : Type} (ltb : A -> A -> bool).           (* strict "sorts below" *)
   Fixpoint insert_desc (x : A) (l : list A) : list A :=
     match l with
     | [] => [x]
-    | y :: l' => if str_ltb (key x) (key y) then y :: insert_desc x l' else x :: l
+    | y :: l' => if ltb x y then y :: insert_desc x l' else x :: l
     end.
   Definition sort_desc (l : list A) : list A := fold_right insert_desc [] l.
 End Sort.
 
-Definition sort_hosts_rhp (hosts : list str) : list str :=
+(* sortHostsReverseHostPort before /repo bc98e3c: reverse, sort descending, reverse *)
+Definition sort_hosts_rhp_unrepaired (hosts : list str) : list str :=
   match hosts with
   | [] | [_] => hosts                                  (* len(hosts) < 2 *)
-  | _ => map reverse_host_port (sort_desc (fun x => x) (map reverse_host_port hosts))
+  | _ => map reverse_host_port (sort_desc str_ltb (map reverse_host_port hosts))
+  end.
+
+(* since bc98e3c + 1814501: then sort.SliceStable moves the exact hosts (non-empty, none
+   of * ? [ { \) to the front, order otherwise kept (a stable sort on a two-valued key =
+   a stable partition); the empty key of the host-less routes is not a host and stays
+   where the reverse sort put it *)
+Definition is_glob_char (c : N) : bool :=
+  (c =? 42) || (c =? 63) || (c =? 91) || (c =? 123) || (c =? 92).
+Definition is_exact_host (h : str) : bool :=
+  match h with [] => false | _ => negb (existsb is_glob_char h) end.
+Definition partition_exact (l : list str) : list str :=
+  filter is_exact_host l ++ filter (fun h => negb (is_exact_host h)) l.
+
+(* the intermediate state bc98e3c (before 1814501): the empty key counted as exact;
+   refutation theorem [empty_host_hostless_first_refuted] only *)
+Definition is_exact_host_bc98e3c (h : str) : bool := negb (existsb is_glob_char h).
+Definition sort_hosts_rhp_bc98e3c (hosts : list str) : list str :=
+  match hosts with
+  | [] | [_] => hosts
+  | _ => let l := map reverse_host_port (sort_desc str_ltb (map reverse_host_port hosts)) in
+         filter is_exact_host_bc98e3c l ++ filter (fun h => negb (is_exact_host_bc98e3c h)) l
+  end.
+
+(* the state 1814501 (before /repo cf1c479): ReverseHostPort mapped over the slice, sort,
+   mapped again -- the hosts handed on were the twice-reversed strings, not the keys
+   (a trailing ':' was lost); refutation theorem [colon_key_refuted] only *)
+Definition sort_hosts_rhp_double_unrepaired (hosts : list str) : list str :=
+  match hosts with
+  | [] | [_] => hosts
+  | _ => partition_exact
+           (map reverse_host_port (sort_desc str_ltb (map reverse_host_port hosts)))
+  end.
+
+(* since cf1c479: the reversed strings are only sort keys.  less(i,j): the reversed strings
+   descending, the hosts themselves descending among equal reversed strings (a total order
+   on distinct strings; duplicates are equal strings).  [host_ltb a b] = "a sorts after b". *)
+Definition host_ltb (a b : str) : bool :=
+  let ra := reverse_host_port a in
+  let rb := reverse_host_port b in
+  if beq ra rb then str_ltb a b else str_ltb ra rb.
+
+Definition sort_hosts_rhp (hosts : list str) : list str :=
+  match hosts with
+  | [] | [_] => hosts                                  (* len(hosts) < 2: unchanged *)
+  | _ => partition_exact (sort_desc host_ltb hosts)
   end.
 
 (* ---------- the table ---------- *)
@@ -105,9 +153,20 @@ Definition def := (str * str * N)%type.                (* host as written, path,
 Definition add_defs (defs : list def) : table :=
   fold_left (fun t d => let '(h, p, id) := d in add_route t (lower h) p id) defs [].
 
-(* NewTable: add every definition, then sort each host's routes by path, descending *)
+(* Routes.Less since /repo c1f03c0: lower-cased paths descending, raw bytes descending
+   among paths that differ only in letter case.  [route_ltb a b] = "a sorts after b". *)
+Definition route_ltb (a b : route) : bool :=
+  let la := lower (fst a) in
+  let lb := lower (fst b) in
+  if beq la lb then str_ltb (fst a) (fst b) else str_ltb la lb.
+(* before c1f03c0: raw bytes only *)
+Definition route_ltb_unrepaired (a b : route) : bool := str_ltb (fst a) (fst b).
+
+(* NewTable: add every definition, then sort each host's routes *)
 Definition new_table (defs : list def) : table :=
-  map (fun e => (fst e, sort_desc (fun r : route => fst r) (snd e))) (add_defs defs).
+  map (fun e => (fst e, sort_desc route_ltb (snd e))) (add_defs defs).
+Definition new_table_unrepaired (defs : list def) : table :=
+  map (fun e => (fst e, sort_desc route_ltb_unrepaired (snd e))) (add_defs defs).
 
 (* ---------- matchers (route/matcher.go) ---------- *)
 Inductive matcher := MPrefix | MIPrefix | MGlob.
@@ -139,7 +198,7 @@ Definition matching_host_noglob (t : table) (host : str) (tls : bool) : list str
 (* the code before 3f5e3c8 (normalizeHostNoLower: the host keeps its letter case);
    kept only for the refutation theorem [noglob_upper_host_refuted] *)
 Definition matching_host_noglob_unrepaired (t : table) (host : str) (tls : bool) : list str :=
-  sort_hosts_rhp
+  sort_hosts_rhp_unrepaired
     (map lower (filter (fun k => beq (normalize_host k tls) (strip_port host tls)) (map fst t))).
 
 (* ---------- lookup / Lookup ---------- *)
@@ -161,6 +220,33 @@ Definition lookup (t : table) (host : str) (tls : bool) (uri : str) (m : matcher
            (globoff : bool) : option cand :=
   let hosts := if globoff then matching_host_noglob t host tls else matching_hosts t host tls in
   first_some (fun h => lookup1 t h uri m) (hosts ++ [[]]).
+
+(* Lookup with glob matching enabled and the host order of before bc98e3c (refutation
+   theorems only) *)
+Definition matching_hosts_unrepaired (t : table) (host : str) (tls : bool) : list str :=
+  sort_hosts_rhp_unrepaired
+    (filter (fun k => gobwas_match (normalize_host k tls) (normalize_host host tls)) (map fst t)).
+Definition lookup_glob_unrepaired (t : table) (host : str) (tls : bool) (uri : str) (m : matcher)
+  : option cand :=
+  first_some (fun h => lookup1 t h uri m) (matching_hosts_unrepaired t host tls ++ [[]]).
+
+(* Lookup with glob matching enabled and the host order of bc98e3c before its follow-up
+   1814501 (refutation theorem only) *)
+Definition lookup_glob_bc98e3c (t : table) (host : str) (tls : bool) (uri : str) (m : matcher)
+  : option cand :=
+  first_some (fun h => lookup1 t h uri m)
+    (sort_hosts_rhp_bc98e3c
+       (filter (fun k => gobwas_match (normalize_host k tls) (normalize_host host tls)) (map fst t))
+     ++ [[]]).
+
+(* Lookup with glob matching enabled and the host sort of 1814501, before cf1c479
+   (refutation theorem only) *)
+Definition matching_hosts_double_unrepaired (t : table) (host : str) (tls : bool) : list str :=
+  sort_hosts_rhp_double_unrepaired
+    (filter (fun k => gobwas_match (normalize_host k tls) (normalize_host host tls)) (map fst t)).
+Definition lookup_glob_double_unrepaired (t : table) (host : str) (tls : bool) (uri : str)
+           (m : matcher) : option cand :=
+  first_some (fun h => lookup1 t h uri m) (matching_hosts_double_unrepaired t host tls ++ [[]]).
 
 (* Lookup before 3f5e3c8, glob matching disabled (refutation theorem only) *)
 Definition lookup_noglob_unrepaired (t : table) (host : str) (tls : bool) (uri : str) (m : matcher)
@@ -247,20 +333,37 @@ Definition ends_with_colon (s : str) : bool :=
       an upper-case letter *)
 Definition F_C03_upper_host_noglob (globoff : bool) (host : str) : bool :=
   globoff && has_upper host.
-(* 2: iprefix matcher and some route path has an upper-case letter (the routes are
-      sorted by raw bytes but matched case-insensitively) *)
+(* 2 (repaired by c1f03c0; no longer part of [region]): iprefix matcher and some route
+      path has an upper-case letter (routes were sorted by raw bytes but matched
+      case-insensitively) *)
 Definition F_C03_iprefix_case (m : matcher) (t : table) : bool :=
   match m with MIPrefix => existsb (fun c : cand => has_upper (snd (fst c))) (all_routes t) | _ => false end.
-(* 3: some host key has a metacharacter other than '*' *)
-Definition F_C03_metachar_order (globoff : bool) (t : table) : bool :=
+(* 3, before bc98e3c (refutation theorem only): some host key has a metacharacter other than '*' *)
+Definition F_C03_metachar_order_unrepaired (globoff : bool) (t : table) : bool :=
   negb globoff && existsb (fun k => negb (star_only k)) (keys t).
-(* 4: some wildcard key's literal host suffix is the whole (normalised) host name:
-      the star matches the empty string *)
+(* 3, what is left after bc98e3c (exact hosts now come first): AMONG PATTERNS a '?' that
+      directly precedes a pattern's literal host suffix still sorts above the host-name
+      byte of a longer suffix it competes with when that byte is <= '?' (digits, '-', '.',
+      ':').  [low_before s t]: s ends with t and the byte before that suffix is <= '?'. *)
+Definition qmark_tail (hp : str) : bool :=
+  match skipn (length (lit_tail hp)) (rev hp) with m :: _ => m =? ch_qm | [] => false end.
+Definition low_before (s t : str) : bool :=
+  has_suffix s t &&
+  match nth_error (rev s) (length t) with Some c => c <=? ch_qm | None => false end.
+Definition F_C03_metachar_order (globoff tls : bool) (t : table) (host : str) : bool :=
+  negb globoff &&
+  existsb (fun k => let hp := host_part (normalize_host k tls) in
+                    let nh := normalize_host host tls in
+                    qmark_tail hp && (low_before nh (lit_tail hp) || low_before (host_part nh) (lit_tail hp)))
+          (keys t).
+(* 4 (repaired by bc98e3c; no longer part of [region]): some wildcard key's literal host
+      suffix is the whole (normalised) host name: the star matches the empty string *)
 Definition F_C03_empty_star (globoff tls : bool) (t : table) (host : str) : bool :=
   negb globoff &&
   existsb (fun k => let nk := normalize_host k tls in
                     has_meta nk && beq (lit_tail (host_part nk)) (host_part (normalize_host host tls))) (keys t).
-(* 5: some host key ends with ':' (ReverseHostPort applied twice drops the colon) *)
+(* 5 (repaired by cf1c479; no longer part of [region]): some host key ends with ':'
+      (ReverseHostPort applied twice dropped the colon) *)
 Definition F_C03_colon_key (t : table) : bool := existsb ends_with_colon (keys t).
 
 (* 6: gobwas/glob deviates from glob semantics on some host key or (glob matcher)
@@ -273,12 +376,16 @@ Definition F_C03_gobwas_overlap (globoff tls : bool) (m : matcher) (t : table) (
      | _ => false
      end.
 
+(* 7 (introduced by bc98e3c, repaired by 1814501; no longer part of [region]): the normalised request host is empty (no Host header, or
+      just the default port) and the table has host-less routes: the key "" glob-matches
+      the empty host, counts as an exact host and is moved in front of every matching
+      pattern, so host-less routes are tried BEFORE host-specific wildcard routes *)
+Definition F_C03_empty_host (tls : bool) (t : table) (host : str) : bool :=
+  is_nil (normalize_host host tls) && existsb is_nil (keys t).
+
 Definition region (t : table) globoff tls m host uri : option N :=
-  if F_C03_colon_key t then Some 5
-  else if F_C03_gobwas_overlap globoff tls m t host uri then Some 6
-  else if F_C03_iprefix_case m t then Some 2
-  else if F_C03_empty_star globoff tls t host then Some 4
-  else if F_C03_metachar_order globoff t then Some 3
+  if F_C03_gobwas_overlap globoff tls m t host uri then Some 6
+  else if F_C03_metachar_order globoff tls t host then Some 3
   else None.
 
 (* domain of the model (the harness excludes and counts everything else) *)
